@@ -80,6 +80,7 @@ class Sched:
         self.abort = False
         self.counter = {}
         self.errors = []      # uncaught exceptions of controlled threads (name, exception)
+        self.soft = set()     # names of threads currently parked at a soft yield
         self._filter_cache = {}
 
     # ---------------------------------------------------------------- inside controlled threads
@@ -131,6 +132,15 @@ class Sched:
         if w == "hang":
             raise Hang()
         return w != "timeout"
+
+    def soft_yield(self):
+        """yield between two steps of an environment script: others go first by default (see PreemptionBounded)"""
+        n = self.names.get(self.me())
+        self.soft.add(n)
+        try:
+            self.yield_point()
+        finally:
+            self.soft.discard(n)
 
     def sleep(self, d):
         if d is None or d <= 0:
@@ -405,31 +415,32 @@ class RandomChooser:
 
 
 class PreemptionBounded:
-    """runs the current thread while it stays enabled; may preempt at the listed step numbers (switch to the next
-    enabled thread in cyclic name order, `which` steps further).  Used by the DFS driver below."""
+    """Default policy: the current thread keeps running while it stays enabled, except that a thread parked at a *soft
+    yield* (the environment between two script steps, Sched.soft_yield) gives way to any other enabled thread - so script
+    steps happen at quiescent points unless a preemption decides otherwise, and a thread that was preempted *to* keeps
+    running.  At the listed step numbers the default is overridden by the k-th alternative (a preemption).  Records where
+    alternatives existed, for the DFS driver."""
     def __init__(self, preempt_at):
-        self.preempt_at = dict(preempt_at)     # step -> offset (1..)
+        self.preempt_at = dict(preempt_at)     # step -> k (1..number of alternatives)
         self.cur = None
         self.step = 0
-        self.branch = []       # (step, number of alternatives) at every point where a preemption was possible
+        self.branch = []       # (step, number of alternatives)
         self.names = []
 
     def __call__(self, names, sched):
         s = self.step
         self.step += 1
-        if self.cur in names:
-            if len(names) > 1:
-                self.branch.append((s, len(names) - 1))
-            off = self.preempt_at.get(s)
-            if off:
-                i = names.index(self.cur)
-                self.cur = names[(i + off) % len(names)]
+        soft = sched.soft
+        if self.cur in names and self.cur not in soft:
+            default = self.cur
         else:
-            # current thread blocked or finished: free choice, not a preemption
-            off = self.preempt_at.get(s, 0)
-            if len(names) > 1:
-                self.branch.append((s, len(names) - 1))
-            self.cur = names[off % len(names)]
+            others = [n for n in names if n not in soft]
+            default = others[0] if others else names[0]
+        alts = [n for n in names if n != default]
+        if alts:
+            self.branch.append((s, len(alts)))
+        k = self.preempt_at.get(s)
+        self.cur = alts[(k - 1) % len(alts)] if (k and alts) else default
         self.names.append(self.cur)
         return self.cur
 
